@@ -227,6 +227,8 @@ class LoadSurferCase(Contract):
             if (vals < SENTINEL).sum() == 0:
                 vals[0, 0] = 1.0
             region = (rng.uniform(-100, 0), rng.uniform(1, 100), rng.uniform(-50, 0), rng.uniform(1, 50))
+            if k % 4 == 3:  # a projected (UTM-like) region: large offsets, sub-metre spacing
+                region = (500000.25, 500000.25 + 0.25 * (ne - 1), 7000000.25, 7000000.25 + 0.25 * (nn - 1))
             fmt = rng.choice(["%.10g", "%14.7e", "%.6f", "%   .9g"])
             kind = rng.choice(["ok", "ok", "ok", "wrapped", "bad_count", "swapped_count", "bad_range", "shifted_range", "ragged", "bad_token"])
             good = vals[vals < SENTINEL]
@@ -283,8 +285,11 @@ class LoadSurferCase(Contract):
             ok = bool(np.array_equal(np.isnan(vals), blank) and np.allclose(vals[~blank], written[~blank], rtol=rel, atol=0))
         out["values_are_those_written_row_by_row_blank_cells_nan"] = ok
         w, e, s, n = case.region
+        # the coordinates are the evenly spaced float64 nodes between the header bounds - whatever dtype the VALUES are
+        # read as (compared exactly: single precision cannot even separate neighbouring nodes of a UTM-sized region)
         out["coordinates_evenly_span_the_header_ranges"] = bool(
-            np.allclose(grid.coords["northing"].values, np.linspace(float("%.12g" % s), float("%.12g" % n), nn)) and np.allclose(grid.coords["easting"].values, np.linspace(float("%.12g" % w), float("%.12g" % e), ne))
+            np.array_equal(np.asarray(grid.coords["northing"].values, dtype="float64"), np.linspace(float("%.12g" % s), float("%.12g" % n), nn))
+            and np.array_equal(np.asarray(grid.coords["easting"].values, dtype="float64"), np.linspace(float("%.12g" % w), float("%.12g" % e), ne))
         )
         out["dims_are_northing_easting"] = tuple(grid.dims) == ("northing", "easting")
         out["grid_id_in_attributes"] = grid.attrs.get("gridID") == "DSAA"
